@@ -634,6 +634,77 @@ theorem cache_positions_sound (dist : Pos → Pos → Rat) (upd : Option (Report
   obtain ⟨y, hy, ha, hts, hout⟩ := ((cache_invariant dist upd reference H).1 A e he).pos lp hlp
   exact ⟨y.1, (List.of_mem_zip hy).1, ha, hts, sound_log dist upd reference H henc hkin y hy lp hout⟩
 
+/-- the point `(lat', lon')` is inside the DEGREE box of the report `y`, measured from `y`'s true position:
+    airborne — at most 2.99 ° of latitude (half a zone is ≥ 3 °) and 0.49 longitude zone away; surface — at
+    most 0.74 ° of latitude (half a quarter zone is ≥ 0.75 °) and 0.49 quarter longitude zone away; the
+    longitude on a suitable turn.  The margins (0.01 °, 0.01 zone) absorb the quantisation of both reports. -/
+def NearDeg (lat' lon' : ℚ) (y : Report × Truth) : Prop :=
+  match y.1.kind with
+  | .airborne => |lat' - y.2.lat| ≤ 299 / 100 ∧
+      ∃ k : ℤ, |lon' + 360 * k - y.2.lon| ≤ 49 / 100 * dlon y.2.i (rlat 17 y.2.i y.2.lat)
+  | .surface => |lat' - y.2.lat| ≤ 74 / 100 ∧
+      ∃ k : ℤ, |lon' + 360 * k - y.2.lon| ≤ 49 / 100 * (dlon y.2.i (rlat 19 y.2.i y.2.lat) / 4)
+  | .other => True
+
+/-- `KinRel` in degrees between TRUE positions (no lattice point occurs) -/
+def KinRelDeg (upd : Option (Report → Bool)) (x y : Report × Truth) : Prop :=
+  (x.1.addr = y.1.addr →
+    (x.1.kind = .airborne → y.1.kind = .airborne → x.2.i ≠ y.2.i →
+      0 ≤ y.1.ts - x.1.ts → y.1.ts - x.1.ts < 10 → PairOf x y) ∧
+    (x.1.kind ≠ .other → y.1.ts - x.1.ts < 180 → NearDeg x.2.lat x.2.lon y)) ∧
+  (∀ f, upd = some f → f x.1 = true → x.1.kind = .airborne → y.1.kind = .surface →
+    NearDeg x.2.lat x.2.lon y)
+
+/-- **`Kin` in degrees**: what a kinematic argument (or the simulation) has to deliver — bounds between
+    true positions of reports of one aircraft whose recorded time stamps differ by less than 10 s / 180 s,
+    and between the receiver and every surface report. -/
+def KinDeg (upd : Option (Report → Bool)) (reference : Option Pos) (H : History) : Prop :=
+  H.Pairwise (KinRelDeg upd) ∧
+  ∀ y ∈ H, y.1.kind = .surface → ∀ rf, reference = some rf → NearDeg rf.lat rf.lon y
+
+/-- a point within (1/40000 °, 1/700 °) of a point of the degree box is inside the near box -/
+theorem near_of_deg (lat' lon' : ℚ) (y : Report × Truth) (hy : y.2.i ≤ 1) (q : Pos)
+    (hq1 : |q.lat - lat'| ≤ 1 / 40000) (hq2 : |q.lon - lon'| ≤ 1 / 700) (h : NearDeg lat' lon' y) :
+    NearOf y q := by
+  unfold NearDeg at h
+  unfold NearOf
+  cases hk : y.1.kind <;> simp only [hk] at h ⊢
+  · obtain ⟨h1, k, h2⟩ := h
+    exact nearBox_air_of_deg y.2.i hy y.2.lat y.2.lon q lat' lon' k hq1 hq2 h1 h2
+  · obtain ⟨h1, k, h2⟩ := h
+    exact nearBox_surf_of_deg y.2.i hy y.2.lat y.2.lon q lat' lon' k hq1 hq2 h1 h2
+
+/-- the lattice point of a report is within (1/40000 °, 1/700 °) of its true position -/
+theorem latticeOf_close (x : Report × Truth) (hx : x.2.i ≤ 1) :
+    |(latticeOf x).lat - x.2.lat| ≤ 1 / 40000 ∧ |(latticeOf x).lon - x.2.lon| ≤ 1 / 700 := by
+  unfold latticeOf
+  cases x.1.kind <;> simp only
+  · exact lattice_close 17 x.2.i (Or.inl rfl) hx x.2.lat x.2.lon
+  · exact lattice_close 19 x.2.i (Or.inr rfl) hx x.2.lat x.2.lon
+  · exact lattice_close 17 x.2.i (Or.inl rfl) hx x.2.lat x.2.lon
+
+/-- **the degree form implies `Kin`** (quantisation margins, proved) -/
+theorem kin_of_deg (upd : Option (Report → Bool)) (reference : Option Pos) (H : History)
+    (henc : EncodesAll H) (h : KinDeg upd reference H) : Kin upd reference H := by
+  refine ⟨h.1.imp_of_mem ?_, ?_⟩
+  · intro x y hx hy hxy
+    have hxi := (henc x hx).1
+    have hyi := (henc y hy).1
+    have hc := latticeOf_close x hxi
+    refine ⟨fun ha => ⟨(hxy.1 ha).1, fun hk hts => ?_⟩, fun f hupd hf hkx hky => ?_⟩
+    · exact near_of_deg _ _ y hyi _ hc.1 hc.2 ((hxy.1 ha).2 hk hts)
+    · exact near_of_deg _ _ y hyi _ hc.1 hc.2 (hxy.2 f hupd hf hkx hky)
+  · intro y hy hk rf hrf
+    exact near_of_deg rf.lat rf.lon y (henc y hy).1 rf (by simp) (by simp) (h.2 y hy hk rf hrf)
+
+/-- `sound` under the degree form of the kinematic hypothesis -/
+theorem sound_deg (dist : Pos → Pos → Rat) (upd : Option (Report → Bool)) (reference : Option Pos)
+    (H : History) (henc : EncodesAll H) (hkin : KinDeg upd reference H)
+    (k : ℕ) (x : Report × Truth) (p : Pos) (hx : H[k]? = some x)
+    (h : (decodePositions Gates.source dist upd reference (H.map Prod.fst))[k]? = some (some p)) :
+    Recovered x.1 x.2 p :=
+  sound dist upd reference H henc (kin_of_deg upd reference H henc hkin) k x p hx h
+
 /-! ### the defect that was repaired, and interference through `update_reference` -/
 
 /-- a taxicab over-estimate of the great-circle distance (km) for points at latitudes ≥ 69°:
